@@ -83,7 +83,11 @@ func evalC01(c *core.Ctx, e *eco.Eco, op string, args []string) []core.Violation
 		if ab <= 0 && bc <= 0 {
 			strict := ab < 0 || bc < 0
 			if ac > 0 || (strict && ac >= 0) {
-				out = append(out, core.Violation{Eco: e.Name, Op: "triple", Args: []string{args[p[0]], args[p[1]], args[p[2]]}, Rule: "transitivity",
+				rule := "transitivity"
+				if inheritedNonTransitive(e, args[:3]) {
+					rule = "transitivity:inherited-from-reference"
+				}
+				out = append(out, core.Violation{Eco: e.Name, Op: "triple", Args: []string{args[p[0]], args[p[1]], args[p[2]]}, Rule: rule,
 					Got: fmt.Sprintf("cmp(a,b)=%d cmp(b,c)=%d cmp(a,c)=%d", ab, bc, ac), Want: "a<=b<=c implies a<=c (strict if a step is strict)"})
 				return out
 			}
